@@ -116,7 +116,7 @@ def allformat_read_campaign(ctx, stride=1, nops=30, channels=(1, 2, 3), route_sk
         ctx.distinct.add("fmt:" + f.name)
     out2 = ctx.batch([(n, t) for (n, f, ch, F, info, t) in tests])
     # THE PREDICATE: Sf.Abs.check (lean/SfModel/Abs.lean) judges every transcript; the Python checker runs beside it as a cross-check
-    from . import abslean
+    from . import abslean, absreplay
     judge = abslean.Judge(ctx)
     starts = {}
     for (name, f, ch, F, info, t) in tests:
@@ -132,6 +132,8 @@ def allformat_read_campaign(ctx, stride=1, nops=30, channels=(1, 2, 3), route_sk
         for fail in v.fails[:2]:
             line, text, cat = abslean.describe(fail, 1, script.strip().split("\n"))
             findings.append(Finding("pred", name, script, line, text, cat, f, ch))
+            # the replay re-judges with `sfmodel abs` (vlib/absreplay.py)
+            findings[-1].replay_text = absreplay.plain_replay(script, line, abslean.geom_line(ch, 0, "w"), 1, clause=fail[1])
     if tests:
         t0 = tests[len(tests) // 2]
         ctx.notes["allformat_example"] = {"name": t0[0], "frames": t0[3], "script": t0[5][-900:], "implementation_transcript_tail": out2.get(t0[0], [])[-4:]}
@@ -143,9 +145,11 @@ def allformat_read_campaign(ctx, stride=1, nops=30, channels=(1, 2, 3), route_sk
         v = verdicts[name]
         sl = t.strip().split("\n")
         lean = [abslean.describe(fail, starts[name], sl) for fail in v.fails]
-        for (k, text, cat) in lean[:3]:
+        for (k, text, cat), fail in list(zip(lean, v.fails))[:3]:
             py = [p[1] for p in probs if p[0] == k]
             findings.append(Finding("pred", name, t, k, text + (" | python predicate: " + py[0] if py else ""), cat, f, ch))
+            findings[-1].replay_text = absreplay.read_test_replay(
+                t, k, abslean.geom_line(ch, F, "r", seekable=info.get("seekable", True), bw=R.raw_bw(f, ch) or 0), ch, F, clause=fail[1])
         for (k, text, cat) in probs[:3]:
             if cat == "crash":
                 findings.append(Finding("crash", name, t, k, text, cat, f, ch))
